@@ -66,7 +66,7 @@ theorem realScalar_powf : @LawfulPowf realScalar17 :=
 section
 variable [Scalar ℝ] [LawfulScalar ℝ] [LawfulPowf]
 
-theorem toQuadsN_eq (c : CubicBez ℝ) (a : ℝ) :
+theorem c17_toQuadsN_eq (c : CubicBez ℝ) (a : ℝ) :
     toQuadsN c a = max 1 (min ⌈(((c.p3.x - 3 * c.p2.x + 3 * c.p1.x - c.p0.x) ^ 2
         + (c.p3.y - 3 * c.p2.y + 3 * c.p1.y - c.p0.y) ^ 2) / (432 * a ^ 2)) ^ ((1 : ℝ) / 6)⌉₊ (2 ^ 64 - 1)) := by
   unfold toQuadsN
@@ -91,7 +91,7 @@ theorem toQuadsN_meets (c : CubicBez ℝ) (a : ℝ) (ha : a ≠ 0)
         + (c.p3.y - 3 * c.p2.y + 3 * c.p1.y - c.p0.y) ^ 2) / (432 * a ^ 2)) ^ ((1 : ℝ) / 6) ≤ 2 ^ 64 - 1) :
     (c.p3.x - 3 * c.p2.x + 3 * c.p1.x - c.p0.x) ^ 2 + (c.p3.y - 3 * c.p2.y + 3 * c.p1.y - c.p0.y) ^ 2
       ≤ (toQuadsN c a : ℝ) ^ 6 * (432 * a ^ 2) := by
-  rw [toQuadsN_eq]
+  rw [c17_toQuadsN_eq]
   set D2 := (c.p3.x - 3 * c.p2.x + 3 * c.p1.x - c.p0.x) ^ 2 + (c.p3.y - 3 * c.p2.y + 3 * c.p1.y - c.p0.y) ^ 2
   have hD : 0 ≤ D2 := by positivity
   have hA : 0 < 432 * a ^ 2 := by positivity
